@@ -636,6 +636,8 @@ class Ref:
         if not V.isc(x) and not V.isc(y):
           raise Unsupported('non-linear multiplication')
         v = x * y
+      elif e.op == '%' and V.isc(y) and int(y) != 0:
+        v = V.trunc_rem(x, y)      # documented as SQL MOD: the sign follows the dividend
       else:
         raise Unsupported('operator ' + e.op)
       return S(v, 'int', OR(a.null, b.null))
